@@ -18,7 +18,7 @@ TM = _sys.modules["synapgrad.tensor"]
 
 SIZES = (1, 2, 3, 5)
 OD_KEYS = ("z", "k", "m")           # deliberately not in sorted order
-FRESH = ("a", "b")
+FRESH = ("a", "_b")           # one public and one underscore-prefixed name: registration must not depend on how a name is spelled
 METHS = ("train", "eval", "freeze", "unfreeze", "zero_grad")
 KIND = {"M": "module", "P": "param", "none": "none", "int": "int"}
 INT = 7
